@@ -493,9 +493,24 @@ fn op_hide(c: &Value, ev: &mut Map<String, Value>) -> Result<(), String> {
 }
 
 fn op_reveal(c: &Value, ev: &mut Map<String, Value>) -> Result<(), String> {
-    let a = avp_from_json(&c["v"])?;
     let secret = json_bytes(&c["secret"])?;
     let rv = rv_from(&c["rv"])?;
+    // a case may give the DECRYPTED plaintext instead of the hidden value (behaviours exported by the
+    // TLC model of the reveal machine): the hidden value that decrypts to it is crafted here
+    let a = if c["v"].is_null() {
+        let t = json_u16(&c["t"])?;
+        let plain = json_bytes(&c["plain"])?;
+        let value = if !plain.is_empty() && plain.len() % 16 == 0 {
+            crate::gen2::craft_hidden(t, &plain, &secret, &rv.value)
+        } else {
+            plain
+        };
+        let v = json!({"k": "Hidden", "f": [t, bytes_json(&value)]});
+        ev.insert("v".into(), v.clone());
+        avp_from_json(&v)?
+    } else {
+        avp_from_json(&c["v"])?
+    };
     let o = guarded(|| a.clone().reveal(&secret, &rv));
     ev.insert(
         "out".into(),
